@@ -130,7 +130,9 @@ func (t *Tree[E]) sequenceEnded(pos int) {
 }
 
 func (t *Tree[E]) playGame(a, b int) (loser, winner int) {
-	if t.nodes[a].value < t.nodes[b].value {
+	// An exhausted sequence (index == -1, value == maxVal) must lose against a live sequence whose
+	// current value happens to equal maxVal, otherwise that value is dropped from the merge.
+	if t.nodes[a].value < t.nodes[b].value || (t.nodes[a].index != -1 && t.nodes[b].index == -1) {
 		return b, a
 	}
 	return a, b
